@@ -1,12 +1,14 @@
 import Driver.Util
 import Driver.C19
 import Driver.C12
+import Driver.C13
 import Driver.C11
 
 def dispatch (line : String) : String :=
   match Driver.toks line with
   | "C19" :: r => Driver.C19.handle r
   | "C12" :: r => Driver.C12.handle r
+  | "C13" :: r => Driver.C13.handle r
   | "C11" :: r => Driver.C11.handle r
   | _ => "bad-request"
 
